@@ -91,11 +91,11 @@ Fixpoint split_first (c : Z) (l : list Z) : list Z * option (list Z) :=
   | [] => ([], None)
   | x :: r => if x =? c then ([], Some r) else let '(a, b) := split_first c r in (x :: a, b)
   end.
-(* decimal numeral [-]ddd[.ddd][e[+-]dd] as an exact rational *)
+(* decimal numeral [+-]?(d+[.d*]?|.d+)(e[+-]?d+)? as an exact rational *)
 Definition dec_of_text (l : list Z) : option (Z * Z) :=
   let '(mant, ex) := split_first 101 l in
   let neg := hd0 mant =? 45 in
-  let body := if neg then tl mant else mant in
+  let body := if neg || (hd0 mant =? 43) then tl mant else mant in
   let '(ip, fp) := split_first 46 body in
   let fp := match fp with Some x => x | None => [] end in
   match uint_of_text (ip ++ fp), (match ex with None => Some 0 | Some e => int_of_text e end) with
